@@ -521,3 +521,12 @@ def instance_is_stateless(ctx):
     thread-local (C19.state-audit)."""
     from . import c19
     c19.state_audit(ctx)
+
+
+@rule('C07', 'every-trap-reaches-the-transcript', configs=('default', 'p256'))
+def every_trap_reaches_the_transcript(ctx):
+    """'Any modification ... is rejected' for an APPENDED trap: `decaps` hands the encapsulation's own trap vector — whole, not a
+    zipped, truncated or filtered copy of it — to c_decaps / h_decaps, which absorb it into T and re-derive every trap
+    (C02.dispatch: argument provenance of the two calls)."""
+    from . import c02
+    c02.dispatch(ctx)
